@@ -11,6 +11,7 @@ for p in "$here"/selftest/mutants/*.patch; do
 done
 for d in "$here"/seeded/*/; do
   tag=$(basename "$d"); id=${tag:0:3}
+  if [ -e "$d/NEUTRALISED" ]; then echo "skipped $id seeded $tag (a later repair of the library makes this change harmless)"; continue; fi
   rc=$(VERIF_SEED=${SEED:-1} "$here/selftest/run_mutant.sh" "$d/patch.diff" "$id" quick >/dev/null 2>&1; echo $?)
   if [ "$rc" = 1 ]; then echo "caught  $id seeded $tag"; else echo "MISSED  $id seeded $tag (exit $rc)"; fail=1; fi
 done
